@@ -148,6 +148,18 @@ func contentBytes(c mContent, name string) []byte {
 		return []byte("cdiVersion: \"0.6.0\"\nkind: v1.com/cls\ndevices: []\n")
 	case "empty":
 		return []byte{}
+	case "blank":
+		return []byte(" \n\t\n")
+	case "nodoc":
+		if isJSON {
+			return []byte("# this Spec is switched off\n# {\"cdiVersion\": \"0.6.0\"}\n")
+		}
+		return []byte("---\n")
+	case "nulldoc":
+		if isJSON {
+			return []byte("null\n")
+		}
+		return []byte("--- ~\n")
 	case "noperm":
 		// a perfectly valid Spec nobody may read: if it is read after all, its devices show up
 		cc := mContent{K: "ok", Kind: "k1", Ds: []string{"x", "y"}, V: 7}
